@@ -1,7 +1,10 @@
 #include "chan.h"
 
 #include <dirent.h>
+#include <fcntl.h>
 #include <sys/stat.h>
+#include <sys/wait.h>
+#include <unistd.h>
 
 #include <algorithm>
 #include <exception>
@@ -294,6 +297,7 @@ struct Substrate {
   uint64_t total() const { return 1 + n_enum + n_tamper + n_random; }
   Baseline base[E_NUM];
   bool have_base = false;
+  bool base_dead = false;  // the un-faulted stream kills the process (dbg build)
   Json Desc() const {
     Json j = Json::Object();
     if (is_corpus) {
@@ -382,6 +386,58 @@ std::vector<Workload> CuratedWorkloads() {
           w.pred[1] = 6;
           w.pred[3] = 5;
         }
+        out.push_back(w);
+      }
+    }
+  }
+  // Mixed attribute layouts: a seam-less per-vertex attribute next to a
+  // seamed one (several attribute decoders sharing / not sharing connectivity
+  // data in the Edgebreaker decoder).
+  for (int eb = 0; eb <= 2; eb += 2) {
+    for (int variant = 0; variant < 3; ++variant) {
+      Workload w;
+      w.kind = 0;
+      w.topo = variant == 0 ? 3 : (variant == 1 ? 1 : 0);
+      w.n = variant == 0 ? 8 : 12;
+      w.gseed = ++gs;
+      AttDesc pos;
+      w.atts.push_back(pos);
+      AttDesc g;
+      g.type = draco::GeometryAttribute::GENERIC;
+      g.dt = draco::DT_INT32;
+      g.nc = 1;
+      g.mode = 0;
+      w.atts.push_back(g);
+      AttDesc n;
+      n.type = draco::GeometryAttribute::NORMAL;
+      n.mode = variant == 2 ? 1 : 2;
+      w.atts.push_back(n);
+      if (variant == 1) {
+        AttDesc t;
+        t.type = draco::GeometryAttribute::TEX_COORD;
+        t.nc = 2;
+        t.mode = 1;
+        w.atts.push_back(t);
+      }
+      w.method = 1;
+      w.eb_method = eb;
+      w.qb[0] = 11;
+      w.qb[1] = 8;
+      w.qb[3] = 10;
+      w.espeed = w.dspeed = 2 + variant;
+      out.push_back(w);
+      if (variant == 0) {
+        // Same layout without prediction for the seam-less attribute.
+        w.gseed = ++gs;
+        w.pred[4] = -2;
+        w.espeed = w.dspeed = 7;
+        out.push_back(w);
+        // A closed cube at default speed.
+        w.gseed = ++gs;
+        w.topo = 9;
+        w.n = 12;
+        w.pred[4] = -1;
+        w.espeed = w.dspeed = 5;
         out.push_back(w);
       }
     }
@@ -813,6 +869,7 @@ struct KindStats {
 struct WorkerStats {
   uint64_t runs = 0, calls = 0, steps = 0;
   uint64_t substrate_unavailable = 0;
+  uint64_t skipped_dead_substrate = 0;
   std::map<std::string, KindStats> kinds;
   std::map<std::string, uint64_t> outcomes;   // entry|outcome|status
   std::map<std::string, uint64_t> sig_counts; // prop|class|sig
@@ -836,6 +893,8 @@ Json StatsToJson(const WorkerStats &s) {
   j["steps"] = static_cast<unsigned long long>(s.steps);
   j["substrate_unavailable"] =
       static_cast<unsigned long long>(s.substrate_unavailable);
+  j["skipped_dead_substrate"] =
+      static_cast<unsigned long long>(s.skipped_dead_substrate);
   Json k = Json::Object();
   for (auto &kv : s.kinds) {
     Json e = Json::Array();
@@ -1137,14 +1196,62 @@ int ChanBatch(const ChanOptions &opt) {
   static std::vector<Substrate> *wsubs = nullptr;
 
   PoolCallbacks cb;
+  // Baselines of every substrate (fault-free configuration), computed once in
+  // forked children so that a build in which a valid stream kills the process
+  // (debug assertions) still gets through; workers inherit them by fork.
+  {
+    Executor bex(opt.repo, batch.tier());
+    std::vector<Substrate> &subs = const_cast<std::vector<Substrate> &>(batch.subs());
+    for (Substrate &s : subs) {
+      int pfd[2];
+      if (pipe(pfd) != 0) abort();
+      fflush(stdout);
+      fflush(stderr);
+      pid_t pid = fork();
+      if (pid == 0) {
+        close(pfd[0]);
+        int dn = open("/dev/null", O_WRONLY);
+        if (dn >= 0) {
+          dup2(dn, 1);
+          dup2(dn, 2);
+        }
+        bex.ComputeBaseline(&s);
+        ssize_t r = write(pfd[1], s.base, sizeof(s.base));
+        (void)r;
+        _exit(0);
+      }
+      close(pfd[1]);
+      Baseline tmp[E_NUM];
+      size_t got = 0;
+      while (got < sizeof(tmp)) {
+        ssize_t n = read(pfd[0], reinterpret_cast<char *>(tmp) + got, sizeof(tmp) - got);
+        if (n <= 0) break;
+        got += static_cast<size_t>(n);
+      }
+      close(pfd[0]);
+      int status = 0;
+      waitpid(pid, &status, 0);
+      if (got == sizeof(tmp)) {
+        memcpy(s.base, tmp, sizeof(tmp));
+        s.have_base = true;
+      } else {
+        s.base_dead = true;
+      }
+    }
+  }
   static int wself = -1;
   cb.init = [&](int w) {
     wself = w;
     wb = &batch;
     wex = new Executor(opt.repo, batch.tier());
     wsubs = const_cast<std::vector<Substrate> *>(&batch.subs());
-    // Warm-up + baselines of every substrate (fault-free configuration).
-    for (Substrate &s : *wsubs) wex->ComputeBaseline(&s);
+    // Warm-up (first-use initialisation) on a substrate that is known to live.
+    for (Substrate &s : *wsubs) {
+      if (s.base_dead) continue;
+      Substrate tmp = s;
+      wex->ComputeBaseline(&tmp);
+      break;
+    }
     wst = WorkerStats();
     wst.want_run_hashes = opt.hashlog;
   };
@@ -1152,6 +1259,12 @@ int ChanBatch(const ChanOptions &opt) {
     if (opt.sample_mod > 1 && idx % opt.sample_mod != 0) return;
     Plan p = wb->PlanFor(idx);
     const Substrate *s = &(*wsubs)[wb->SubstrateOf(idx)];
+    // A substrate whose valid stream already kills the process is reported
+    // once, by its fault-free run; its faulted variants would only repeat it.
+    if (s->base_dead && idx != s->first) {
+      ++wst.skipped_dead_substrate;
+      return;
+    }
     wex->Execute(idx, p, s, &wst, out, nullptr);
     // Keep memory flat; the files are merged by the parent.
     if (wst.eff_hashes.size() >= 8192)
@@ -1187,6 +1300,7 @@ int ChanBatch(const ChanOptions &opt) {
     agg.calls += j.get("calls").U64();
     agg.steps += j.get("steps").U64();
     agg.substrate_unavailable += j.get("substrate_unavailable").U64();
+    agg.skipped_dead_substrate += j.get("skipped_dead_substrate").U64();
     for (auto &kv : j.get("kinds").items()) {
       KindStats &k = agg.kinds[kv.first];
       k.planned += kv.second.at(0).U64();
@@ -1277,6 +1391,7 @@ int ChanBatch(const ChanOptions &opt) {
   po.budget_s = opt.budget_s;
   po.log_dir = opt.log_dir;
   po.hashlog = opt.hashlog;
+  if (opt.max_deaths) po.max_deaths = opt.max_deaths;
   PoolResult pr = RunPool(po, cb);
 
   // Merge the hashes of effective faulted streams.
@@ -1319,6 +1434,7 @@ int ChanBatch(const ChanOptions &opt) {
     e["enumerated"] = s.enumerate;
     e["tamper_events"] = static_cast<unsigned long long>(s.events.size());
     e["tamper_enumerated"] = s.tamper_enum;
+    if (s.base_dead) e["valid_stream_kills_process"] = true;
     subs.push(e);
   }
   summary["substrates"] = subs;
@@ -1333,12 +1449,24 @@ int ChanBatch(const ChanOptions &opt) {
   return 0;
 }
 
-int ChanPlanOf(const ChanOptions &opt, uint64_t idx) {
+int ChanPlanOf(const ChanOptions &opt, const std::string &idxs) {
   Batch batch(opt);
   batch.BuildSubstrates();
-  if (idx >= batch.total()) return 2;
-  Plan p = batch.PlanFor(idx);
-  printf("%s\n", p.ToJson(false).Dump().c_str());
+  // "total" prints the size of the index space; else a comma separated list.
+  if (idxs == "total") {
+    printf("%llu\n", static_cast<unsigned long long>(batch.total()));
+    return 0;
+  }
+  size_t pos = 0;
+  while (pos < idxs.size()) {
+    size_t e = idxs.find(',', pos);
+    if (e == std::string::npos) e = idxs.size();
+    const uint64_t idx = strtoull(idxs.substr(pos, e - pos).c_str(), nullptr, 0);
+    pos = e + 1;
+    if (idx >= batch.total()) continue;
+    Plan p = batch.PlanFor(idx);
+    printf("%s\n", p.ToJson(false).Dump().c_str());
+  }
   return 0;
 }
 
@@ -1363,6 +1491,8 @@ int ChanExec(const std::string &plans_path, const std::string &out_path,
   cb.run = [&](uint64_t n, std::string *out) {
     const Json &j = plans[n];
     Plan p = Plan::FromJson(j);
+    // Marker for tools that watch the worker's stderr (valgrind pass).
+    fprintf(stderr, "SIM-PLAN %llu\n", static_cast<unsigned long long>(n));
     const std::string tier = j.has("tier") ? j.get("tier").Str() : "quick";
     if (j.get("materialise_only").Int()) {
       std::vector<uint8_t> bytes;
